@@ -5,7 +5,7 @@
             group's Listen/Register: one atomic step; a leave is one atomic step).
    [run2] = the code before the repair of finding F-C13 (join = two atomic steps), kept only for
             the regression witnesses at the end. *)
-From FRP Require Import Model.Group Proofs.GroupProofs.
+From FRP Require Import Model.Group Proofs.GroupProofs Model.GroupLocks Proofs.GroupLockProofs gen.GenGroupLocks.
 Import Grp.
 Open Scope Z_scope.
 
@@ -180,6 +180,24 @@ Theorem C13_http_rotates_over_members : forall g g' o, http_pick g = (g', o) -> 
   exists name, nth_error (g_lns g) (Z.to_nat ((g_idx g + 1) mod Z.of_nat (length (g_lns g)))) = Some name /\ o = CTo name.
 Proof. exact http_pick_member. Qed.
 Print Assumptions C13_http_rotates_over_members.
+
+(* ---- the atomicity the model assumes, read from today's source (reflective, gen/GenGroupLocks.v) ---- *)
+(* each of the six join / leave functions has exactly one controller critical section, and every access
+   to the groups table, every call into the group and every operation on the group's endpoint lies
+   inside it: a join is one atomic step, the table part of a leave is one atomic step *)
+Theorem C13_lock_structure_matches_model :
+  map fst group_lock_facts = expected_lock_functions /\
+  forall f evs, In (f, evs) group_lock_facts ->
+    count_ctl_locks evs = 1%nat /\
+    forall pre ev post, evs = (pre ++ ev :: post)%list -> is_access ev = true -> ctl_held pre false = true.
+Proof. exact (group_locks_ok_sound group_lock_facts (eq_refl true <: group_locks_ok group_lock_facts = true)). Qed.
+Print Assumptions C13_lock_structure_matches_model.
+
+(* Accept returns every connection it has taken from the hand-off channel to its member (no drop after
+   the take); Close is close(closeCh) followed by CloseListener: the shapes the model's steps mirror *)
+Theorem C13_accept_and_close_shape_match_model : group_shapes_ok group_accept_shape = true.
+Proof. vm_compute. reflexivity. Qed.
+Print Assumptions C13_accept_and_close_shape_match_model.
 
 (* ---- regression witnesses about the OLD two-step join (finding F-C13, repaired in /repo) ---- *)
 Theorem C13_old_two_step_join_crashes :
